@@ -8,10 +8,15 @@
   no unit is committed and no completion is reported while a recovery request is outstanding
   (source fact `c14_start_sync`: no goroutine is started in bisyncStartPoint /
   purgeBisyncRecoveryState / cleanupRecoveredBisyncCommitRecords; c14l runs StartPoint to its
-  return before the loop). `Sys` (one FIFO for both) allows such interleavings; `TSys` does not:
+  return before the loop; and a send loop does not return before its lanes have finished — true of the
+  parallel loop since the repair D35 — so that no lane of the PREVIOUS loop of the same process commits
+  while the next start recovers). `Sys` (one FIFO for both) allows such interleavings; `TSys` does not:
   `commit`, `report`, `tick` are disabled while the recovery queue is non-empty. Everything else —
   lanes committing in any order, reports in any order, flush ticks at any time, each request applied
   on its own, a crash after any request — is as in `Sys`.
+
+  NOT modelled: the in-process frontier-miss fast path of `bisyncStartPoint` (a later StartPoint of the
+  same RedisOutput answered from the in-memory frontier): `start` is always a fresh read of the target.
 -/
 import GunYu.Model.FrontierSys
 
